@@ -3,7 +3,7 @@
 cd /verif
 for id in "$@"; do
   prop=${id%%-*}
-  if grep -q "\"status\": \"obsolete" /verif/seeded/$id/meta.json 2>/dev/null; then echo "$id: obsolete (see meta.json)"; continue; fi
+  if grep -qE "\"status\": \"(obsolete|neutralised)" /verif/seeded/$id/meta.json 2>/dev/null; then echo "$id: obsolete (see meta.json)"; continue; fi
   if ! git -C /repo apply --check $( [ -f /verif/seeded/$id/patch_rebased.diff ] && echo /verif/seeded/$id/patch_rebased.diff || echo /verif/seeded/$id/patch.diff ) 2>/dev/null; then echo "$id: patch does not apply to the current tree"; continue; fi
   git -C /repo apply $( [ -f /verif/seeded/$id/patch_rebased.diff ] && echo /verif/seeded/$id/patch_rebased.diff || echo /verif/seeded/$id/patch.diff )
   out=$(python3 checks/run.py $prop 2>&1); rc=$?
